@@ -155,6 +155,13 @@ def check_sample(case, part):
             pars["omega"] = xu.with_unit(pm.VonMises("omega", 1.0, 2.0), u.rad)
         if custom in ("M0_uniform",):
             pars["M0"] = xu.with_unit(pm.Uniform("M0", 0.0, 2 * np.pi), u.rad)
+        if custom in ("e_given_P", "e_given_P_rev"):
+            # a user prior in which one nonlinear parameter depends on another one; given in either dictionary order
+            from thejoker.distributions import UniformLog
+
+            Pv = xu.with_unit(UniformLog("P", Pmin, Pmax), u.day)
+            ev = xu.with_unit(pm.Beta("e", 0.867, 3.03 + 20.0 / Pv), u.one)
+            pars = {"e": ev, "P": Pv} if custom == "e_given_P" else {"P": Pv, "e": ev}
         prior = tj.JokerPrior.default(P_min=(Pmin * u.day).to(Pu), P_max=(Pmax * u.day).to(Pu), sigma_K0=sK0 * u.km / u.s, P0=P0d * u.day,
                                       sigma_v=svq if pt_ > 1 else svq[0], poly_trend=pt_, model=model, pars=pars if pars else None, **kw)
     for seed in case["seeds"]:
@@ -176,7 +183,10 @@ def check_sample(case, part):
             if np.ptp(a) > 2 * np.pi + 1e-12 or np.any(np.abs(a) > 2 * np.pi + 1e-12):
                 part.violation(c2, f"{ang} draws do not lie in one 2pi interval", observed=(a.min(), a.max()))
                 return
-        decl = -np.log(s["P"].value) + st.beta(*KIPPING["Kipping13Global"]).logpdf(e)
+        if custom in ("e_given_P", "e_given_P_rev"):
+            decl = -np.log(s["P"].value) + st.beta(0.867, 3.03 + 20.0 / P).logpdf(e)
+        else:
+            decl = -np.log(s["P"].value) + st.beta(*KIPPING["Kipping13Global"]).logpdf(e)
         if custom in ("s_lognormal", "both"):
             decl = decl + st.lognorm(0.6, scale=0.4).logpdf(s["s"].to_value(u.km / u.s))
         if custom in ("omega_vonmises", "both"):
@@ -246,7 +256,7 @@ def build(quick, seed):
                                              generate_linear=gl, P_unit=Pu, size=16, seeds=[0, 1] if quick else [0, 1, 2, 3]))
     samp.append(dict(kind="sample", P_lim=[0.1, 1e7], sigma_K0=30.0, P0_days=365.25, sigma_v=[100.0, 0.5], poly_trend=1, generate_linear=True,
                      P_unit="day", size=64, seeds=[0, 1, 2, 3], probe=True))
-    for custom in ("s_lognormal", "omega_vonmises", "both", "M0_uniform"):
+    for custom in ("s_lognormal", "omega_vonmises", "both", "M0_uniform", "e_given_P", "e_given_P_rev"):
         for gl in (False, True):
             samp.append(dict(kind="sample", P_lim=[1.0, 1000.0], sigma_K0=30.0, P0_days=365.25, sigma_v=[100.0, 0.5], poly_trend=1, generate_linear=gl,
                              P_unit="day", size=16, seeds=[0, 1], custom=custom))
